@@ -171,5 +171,42 @@ theorem fateSeqs_increasing (v : P → Verdict) (s : Sched P) (ps : List P) :
         simp only [schedule] at this
         omega
 
+/-! ### additions: positions in the egress list -/
+
+theorem routeAll_cons_state (v : P → Verdict) (s : Sched P) (p : P) (ps : List P) :
+    (routeAll v s (p :: ps)).1 = (routeAll v (s.route p (v p)).1 ps).1 := rfl
+
+theorem routeAll_append_state (v : P → Verdict) (s : Sched P) (ps1 ps2 : List P) :
+    (routeAll v s (ps1 ++ ps2)).1 = (routeAll v (routeAll v s ps1).1 ps2).1 := by
+  induction ps1 generalizing s with
+  | nil => rfl
+  | cons p ps ih =>
+    rw [List.cons_append, routeAll_cons_state, routeAll_cons_state, ih]
+
+theorem route_deliver_nextSeq (s : Sched P) (p : P) (d : Nat) (hd : d ≠ 0) :
+    (s.route p (.deliver d)).1.nextSeq = s.nextSeq + 1 := by
+  simp [route, hd, schedule]
+
+/-- The packet at position `pre.length` of the egress list, given `Deliver d` (d > 0), is queued
+    with deadline `now + d` and the sequence number that was current after routing `pre`. -/
+theorem routeAll_at (v : P → Verdict) (s : Sched P) (pre post : List P) (p : P) (d : Nat)
+    (hv : v p = .deliver d) (hd : d ≠ 0) :
+    (⟨s.now + d, (routeAll v s pre).1.nextSeq, p⟩ : Scheduled P) ∈ (routeAll v s (pre ++ p :: post)).1.pending := by
+  rw [routeAll_append_state, routeAll_cons_state]
+  apply routeAll_keeps
+  apply (mem_route_pending _ p (v p) _).mpr
+  exact Or.inr ⟨d, hd, hv, by rw [routeAll_now]⟩
+
+/-- Sequence numbers follow positions: the counter after routing `pre ++ p :: mid` (with `p`
+    queued) is strictly above the one after routing `pre`. -/
+theorem routeAll_seq_lt (v : P → Verdict) (s : Sched P) (pre mid : List P) (p : P) (d : Nat)
+    (hv : v p = .deliver d) (hd : d ≠ 0) :
+    (routeAll v s pre).1.nextSeq < (routeAll v s (pre ++ p :: mid)).1.nextSeq := by
+  rw [routeAll_append_state, routeAll_cons_state]
+  have h1 := routeAll_nextSeq_le v ((routeAll v s pre).1.route p (v p)).1 mid
+  rw [hv] at h1 ⊢
+  have h2 := route_deliver_nextSeq (routeAll v s pre).1 p d hd
+  omega
+
 end Sched
 end TV
